@@ -61,6 +61,12 @@ func c04Scenario(rng *rand.Rand) *prodScenario {
 	}
 	nmsg := 2 + rng.Intn(40)
 	sc.Submitters = 1 + rng.Intn(2)
+	// timestamps: 0 = a third of the messages carry unrelated whole-millisecond
+	// times; 1 = every message carries a time within +-40 ms of one base, with
+	// sub-millisecond parts and in no particular order (records older and
+	// younger than the first record of their batch)
+	tsMode := rng.Intn(2)
+	tsBase := time.Unix(1500000000+int64(rng.Intn(1000000)), int64(rng.Intn(1e9)))
 	perPart := map[int32]int{}
 	for i := 0; i < nmsg; i++ {
 		ms := &msgSpec{ID: i, Topic: "t", Part: int32(rng.Intn(sc.Parts))}
@@ -109,7 +115,9 @@ func c04Scenario(rng *rand.Rand) *prodScenario {
 				ms.Headers = append(ms.Headers, hd)
 			}
 		}
-		if rng.Intn(3) == 0 {
+		if tsMode == 1 {
+			ms.Ts = tsBase.Add(time.Duration(rng.Int63n(80e6) - 40e6))
+		} else if rng.Intn(3) == 0 {
 			ms.Ts = time.Unix(1500000000+int64(rng.Intn(1000000)), int64(rng.Intn(1000))*1e6)
 		}
 		ms.N = perPart[ms.Part]
